@@ -623,13 +623,16 @@ class AcctSim(object):
             nlv_pre_model = None
         else:
             nlv_pre_model = L.nlv()
+            # solvency is judged after the interest of the elapsed period has been credited (it is credited first)
+            broke = float(nlv_pre_model) <= 0
+            near_broke = abs(float(nlv_pre_model)) <= 10 * L.tol()
             ref_nlv = r.context_pre.nlv if not unset(r.context_pre) else float(nlv_pre_model)
             must_fail, either, plan, reasons = self.predict_rebalance(targets, measure, fractional, thr, ref_nlv)
         rec = {"targets": targets, "measure": measure, "fractional": fractional, "margin": thr,
                "err": type(err).__name__ if err else None}
         if err is not None:
             after_pos, after_cash, _ = self.snapshot_getters()
-            if isinstance(err, EndOfEpisodeError) and isinstance(r.trades, list) and not (broke or near_broke):
+            if isinstance(err, EndOfEpisodeError) and isinstance(r.trades, list):
                 # every trade was executed and the valuation that follows found
                 # NLV <= 0: the decision's own costs ruined the account. That
                 # is C07/C09 territory (recorded there); the ledger just follows.
@@ -643,7 +646,8 @@ class AcctSim(object):
                     self.check_positions("rebalance")
                     return rec
                 self.violate("unexpected_exception", "rebalance raised EndOfEpisodeError with model NLV {} before and {} after its trades".format(
-                    float(model_nlv), float(post) if post is not None else None), exc="EndOfEpisodeError", where="rebalance_post")
+                    float(nlv_pre_model) if nlv_pre_model is not None else None, float(post) if post is not None else None),
+                    exc="EndOfEpisodeError", where="rebalance_post")
                 return rec
             if isinstance(err, EndOfEpisodeError):
                 if not (broke or near_broke):
